@@ -184,6 +184,37 @@ m("c18-default-host-always", PC,
 """        if self.host.is_none() && self.hosts.is_none() {
             // Systems that support it default to unix domain sockets.""", ["C18"])
 
+PL='postgres/src/lib.rs'
+m("c16-cache-key-ignores-types-on-get", PL,
+"""        let key = StatementCacheKey {
+            query: Cow::Borrowed(query),
+            types: Cow::Borrowed(types),
+        };
+        self.map.read().unwrap().get(&key).map(ToOwned::to_owned)""",
+"""        let _ = types;
+        self.map
+            .read()
+            .unwrap()
+            .iter()
+            .find(|(k, _)| k.query == query)
+            .map(|(_, v)| v.to_owned())""", ["C16"])
+m("c16-recycle-skips-is-closed", PL,
+"""        if client.is_closed() {""",
+"""        if false && client.is_closed() {""", ["C16"])
+m("c16-detach-noop", PL,
+"""        self.statement_caches.detach(&object.statement_cache);""",
+"""        let _ = object;""", ["C16"])
+m("c16-verified-skips-query", PC,
+"""            Self::Verified => Some(""),""",
+"""            Self::Verified => None,""", ["C16"])
+m("c16-size-not-decremented-on-remove", PL,
+"""        if removed.is_some() {
+            let _ = self.size.fetch_sub(1, Ordering::Relaxed);
+        }""",
+"""        if removed.is_none() {
+            let _ = self.size.fetch_sub(0, Ordering::Relaxed);
+        }""", ["C16"])
+
 def run(cmd, **kw):
     return subprocess.run(cmd, shell=True, capture_output=True, text=True, **kw)
 
